@@ -310,6 +310,13 @@ func (q *qelim) instantiate1(t *Term, prove bool, depth int) *Term {
 			return t
 		}
 		var cands []*Term
+		if !(len(t.Args) > 1 && t.Args[1].Op == "select") {
+			// witnesses of the goal side first, then this quantifier's own range ends
+			cands = append(cands, q.skolems...)
+			if lo, hi := rangeOf(t); lo != nil && hi != nil && !hasBoundVar(lo) && !hasBoundVar(hi) {
+				cands = append(cands, lo, BVSub(hi, BV(1, hi.S.W)))
+			}
+		}
 		cands = append(cands, q.matchCands(t)...)
 		if len(t.Args) > 1 && t.Args[1].Op == "select" {
 			// pattern (select A' o): instantiate at every index A' is read at
@@ -333,15 +340,15 @@ func (q *qelim) instantiate1(t *Term, prove bool, depth int) *Term {
 				}
 			}
 			cands = uniq
-			if len(cands) > 120 {
+			if len(cands) > 64 {
 				// keep every skolem constant (a hypothesis guarded by its own skolemised condition needs it)
-				keep := cands[:120:120]
+				keep := cands[:64:64]
 				inKeep := map[*Term]bool{}
 				for _, c := range keep {
 					inKeep[c] = true
 				}
-				for _, c := range cands[120:] {
-					if c.Op == "var" && strings.HasPrefix(c.Name, "sk!") && !inKeep[c] && len(keep) < 160 {
+				for _, c := range cands[64:] {
+					if c.Op == "var" && strings.HasPrefix(c.Name, "sk!") && !inKeep[c] && len(keep) < 128 {
 						keep = append(keep, c)
 					}
 				}
